@@ -6,8 +6,9 @@ import Marwood.Num.F64
 Anchors: `marwood/src/number.rs` (`Add Sub Mul Div` for `&Number`, `quotient`, `Rem`, `modulo`,
 `abs floor ceil truncate round numerator denominator pow`) and `marwood/src/vm/builtin/number.rs`
 (`plus minus multiply divide quotient remainder modulo abs floor ceiling truncate numerator
-denominator expt`), as of the `fix:` commits 301e76d, 5bfb138, fcf9000 (quotient/remainder/modulo
-at the integer boundaries; division, expt, abs, floor, ceiling without 32-bit overflow).
+denominator expt`), as of the `fix:` commits 301e76d, 5bfb138, fcf9000, 7762e0a (quotient/remainder/modulo
+at the integer boundaries; division, expt, abs, floor, ceiling without 32-bit overflow; expt of an
+integer-valued rational).
 
 Conventions
 * `i64`/`i32` are `Int` with explicit range checks where Rust checks (`checked_*`), `BigInt` is `Int`.
@@ -393,21 +394,46 @@ def denominator : Num → Option Num
   | .flo _ => none
   | _ => some (.fix 1)
 
+/-- the `Fixnum` arm of `Number::pow`: `i64::checked_pow`, else the `BigInt` power -/
+def powFix (n : Int) (e : Nat) : Num :=
+  match chkPow inI64 n e with
+  | some r => .fix r
+  | none => .big (n ^ e)
+
 /-- `Number::pow` for an exact base (fix fcf9000: a rational power that leaves the i32 range is
     computed exactly as a `BigRational` and converted to a double once — `Ratio<BigInt>::to_f64`
-    rounds to nearest-even with gradual underflow and overflow to ±inf).  Exponents beyond
-    `i32::MAX` take the `powf` path, which is not modelled. -/
+    rounds to nearest-even with gradual underflow and overflow to ±inf; fix 7762e0a: when the base is an
+    integer carried as a rational (`denom == 1`) that power is the integer power of the `Fixnum`
+    arm).  Exponents beyond `i32::MAX` of a proper fraction take the `powf` path, which is not
+    modelled. -/
 def pow (a : Num) (e : Nat) : Option Num :=
   match a with
-  | .fix n => some (match chkPow inI64 n e with
-    | some r => .fix r
-    | none => .big (n ^ e))
+  | .fix n => some (powFix n e)
+  | .big n => some (.big (n ^ e))
+  | .rat n d =>
+    match chkPow inI32 n e, chkPow inI32 d e with
+    | some n', some d' => some (.rat n' d')
+    | _, _ =>
+      if d == 1 then some (powFix n e)
+      else if e ≤ 2147483647 then some (.flo (Fl.rnd ((mkRat n d.toNat) ^ e))) else none
+  | .flo _ => none
+
+/-! the functions as they were before a `fix:` commit, kept for the `pinned_*` witnesses -/
+namespace Pinned
+
+/-- `Number::pow` before fix 7762e0a: every rational base whose numerator or denominator power
+    leaves i32 answered with a double, also an integer-valued one -/
+def pow (a : Num) (e : Nat) : Option Num :=
+  match a with
+  | .fix n => some (powFix n e)
   | .big n => some (.big (n ^ e))
   | .rat n d =>
     match chkPow inI32 n e, chkPow inI32 d e with
     | some n', some d' => some (.rat n' d')
     | _, _ => if e ≤ 2147483647 then some (.flo (Fl.rnd ((mkRat n d.toNat) ^ e))) else none
   | .flo _ => none
+
+end Pinned
 
 /-! ## the procedures of builtin/number.rs on number arguments (in source order) -/
 
